@@ -312,3 +312,49 @@ def run_check(prop, tier, seed, replay=None):
             print("INCONCLUSIVE: " + r[:1500])
         return 2
     return 0
+
+
+def run_json_procs(ctx, specs, timeout=600, max_par=None):
+    """specs: list of (module, [args], env-overrides).  Each runs `python -m module args...` in its own
+    subprocess and must print one JSON document on stdout.  Returns list of parsed documents (None on
+    failure; failures make the run inconclusive)."""
+    max_par = max_par or NCPU
+    results = [None] * len(specs)
+    pending = list(enumerate(specs))
+    running = []
+    while pending or running:
+        while pending and len(running) < max_par:
+            i, (module, args, env) = pending.pop(0)
+            e = dict(os.environ)
+            e["PYTHONPATH"] = ROOT + os.pathsep + e.get("PYTHONPATH", "")
+            e.update(env or {})
+            out = tempfile.TemporaryFile()
+            err = tempfile.TemporaryFile()
+            p = subprocess.Popen([PY, "-m", module] + [str(a) for a in args], stdout=out, stderr=err, env=e)
+            running.append((i, p, out, err, time.time()))
+        time.sleep(0.02)
+        still = []
+        for (i, p, out, err, t0) in running:
+            rc = p.poll()
+            if rc is None:
+                if time.time() - t0 > timeout:
+                    p.kill()
+                    p.wait()
+                    ctx.mark_inconclusive("subprocess %d exceeded watchdog" % i)
+                else:
+                    still.append((i, p, out, err, t0))
+                continue
+            out.seek(0)
+            data = out.read()
+            if rc == 0:
+                try:
+                    results[i] = json.loads(data)
+                except ValueError:
+                    ctx.mark_inconclusive("subprocess %d printed no JSON: %r" % (i, data[-500:]))
+            else:
+                err.seek(0)
+                ctx.mark_inconclusive("subprocess %d died rc=%s: %s" % (i, rc, err.read()[-2000:].decode("utf-8", "replace")))
+            out.close()
+            err.close()
+        running = still
+    return results
